@@ -103,6 +103,12 @@ def resolve_call(repo: Repo, fi: FunctionInfo, call: ast.Call) -> Optional[Funct
                     if c not in ("object", "?"):
                         return None
             return None
+        # self.attr.m(...) where self.attr = RepoClass(...) somewhere in the class
+        if is_self_attr(f.value) and fi.cls is not None:
+            tcls = attr_class(repo, fi.cls, f.value.attr)
+            if tcls is not None:
+                _, m = repo.find_method(tcls, f.attr)
+                return m
         # Class.m(self, ...) / module.func(...)
         d = repo.resolve_expr(mi, f)
         if d:
@@ -117,6 +123,42 @@ def resolve_call(repo: Repo, fi: FunctionInfo, call: ast.Call) -> Optional[Funct
         # self.__class__.m / DecisionTreeLogisticRegression._x
         return None
     return None
+
+
+_attr_cls_cache = {}
+
+
+def attr_class(repo: Repo, ci: ClassInfo, attr: str) -> Optional[ClassInfo]:
+    """repository class of the object stored in self.<attr>, when every
+    constructor-style assignment `self.attr = Name(...)` in the class (and its
+    repository ancestors) names the same repository class."""
+    key = (id(repo), ci.qualname, attr)
+    if key in _attr_cls_cache:
+        return _attr_cls_cache[key]
+    found = set()
+    for c in repo.mro(ci):
+        if not isinstance(c, ClassInfo):
+            continue
+        for m in c.methods.values():
+            for n in own_nodes(m.node):
+                if isinstance(n, ast.Assign) and any(is_self_attr(t, attr) for t in n.targets) and isinstance(n.value, ast.Call):
+                    d = repo.resolve_expr(m.module, n.value.func)
+                    tc = repo.get_class(d) if d else None
+                    if tc is not None:
+                        found.add(tc.qualname)
+                    # node = Cls(...); self.attr = node is handled by the Name case below
+                if isinstance(n, ast.Assign) and any(is_self_attr(t, attr) for t in n.targets) and isinstance(n.value, ast.Name):
+                    for n2 in own_nodes(m.node):
+                        if isinstance(n2, ast.Assign) and any(isinstance(t, ast.Name) and t.id == n.value.id for t in n2.targets) and isinstance(n2.value, ast.Call):
+                            d = repo.resolve_expr(m.module, n2.value.func)
+                            tc = repo.get_class(d) if d else None
+                            if tc is not None:
+                                found.add(tc.qualname)
+    res = repo.get_class(next(iter(found))) if len(found) == 1 else None
+    if len(_attr_cls_cache) > 5000:
+        _attr_cls_cache.clear()
+    _attr_cls_cache[key] = res
+    return res
 
 
 def external_call_target(repo: Repo, fi: FunctionInfo, call: ast.Call) -> Optional[str]:
